@@ -1,9 +1,10 @@
 (* C28 — viral attributes propagate according to the declared rule.
    Statements over Model/Viral.v.  `vp_group` is the specification (a function of the multiset of the combined values),
-   `vp_group_impl` the engine's `list_reduce(list(col), …)` (left fold in physical order); `veval false` / `veval true`
-   evaluate scripts with one or the other.  The engine is tied to these functions by the correspondence check
-   harness/props/c28.py, which runs every generated script on two row orders of its inputs and evaluates the same
-   cases here (vm_compute). *)
+   `vp_group_impl` the engine's `list_reduce(list(col ORDER BY col), …)` (the sorted fold, repo commit 52984f5),
+   `vp_group_before_fix` the fold in physical order the engine used before (regression witness); `veval false` /
+   `veval true` evaluate scripts with the engine's fold / the fold before the fix.  The engine is tied to these functions
+   by the correspondence check harness/props/c28.py, which runs every generated script on two row orders of its inputs
+   and evaluates the same cases here (vm_compute). *)
 From Coq Require Import ZArith QArith String List Bool Permutation.
 Import ListNotations.
 From VTL Require Import Base.Val Model.Table Model.Scalar Model.Expr Model.SetOps Model.Viral
@@ -30,23 +31,33 @@ Theorem C28_single_is_diagonal_pair : forall cls d a,
   Forall no_diag cls -> enum_single cls d a = enum_pair cls d a a.
 Proof. exact enum_single_is_pair_diag. Qed.
 
-(* REFUTED for the engine's fold: a rule and two orders of the same three values with different results
-   (rule: when "A" and "B" then "C"; when "C" then "D"; else "E" — values A, B, C give D, values C, B, A give E).
-   The same witness is replayed on the engine by the check. *)
-Theorem C28_enumerated_fold_order_refuted :
-  exists r l l', Permutation l l' /\ vp_group_impl r l <> vp_group_impl r l'.
-Proof. exact enumerated_fold_order_refuted. Qed.
+(* the ENGINE's fold is the specification, so for EVERY rule (enumerated or aggregate) the value combined over a group
+   or partition — with or without a rule — does not depend on the order of the datapoints; lists of any length *)
+Theorem C28_engine_fold_is_spec : forall r l, vp_group_impl r l = vp_group r l.
+Proof. exact vp_group_impl_is_spec. Qed.
+Theorem C28_engine_fold_order_independent : forall r l l',
+  Permutation l l' -> vp_group_impl r l = vp_group_impl r l'.
+Proof. exact vp_group_impl_perm. Qed.
+Theorem C28_group_value_order_independent : forall rule l l',
+  Permutation l l' -> grp false rule l = grp false rule l'.
+Proof. exact grp_perm. Qed.
 
-(* PARTIAL: the engine's fold is order-independent whenever the rule's pair table is closed and associative on the
-   values at hand (a decidable check; commutativity always holds) — and then it is the specification *)
-Theorem C28_enumerated_fold_partial : forall dom cls d l l',
+(* REGRESSION WITNESS — the fold BEFORE the fix (list_reduce(list(col)) in physical order) was order-dependent:
+   rule `when "A" and "B" then "C"; when "C" then "D"; else "E"`, values A, B, C gave D, values C, B, A gave E.
+   The check replays the witness on the engine and requires the engine NOT to behave like this fold any more. *)
+Theorem C28_fold_before_fix_order_dependent :
+  exists r l l', Permutation l l' /\ vp_group_before_fix r l <> vp_group_before_fix r l'.
+Proof. exact fold_before_fix_order_dependent. Qed.
+(* … except for rules whose pair table is closed and associative on the values at hand (decidable check), where it
+   already was the specification *)
+Theorem C28_fold_before_fix_partial : forall dom cls d l l',
   enum_order_safe dom cls d = true -> Forall (fun v => In v dom) l -> Permutation l l' ->
-  vp_group_impl (REnum cls d) l = vp_group_impl (REnum cls d) l'.
-Proof. exact enumerated_fold_partial. Qed.
-Theorem C28_impl_is_spec_when_safe : forall dom cls d l,
+  vp_group_before_fix (REnum cls d) l = vp_group_before_fix (REnum cls d) l'.
+Proof. exact fold_before_fix_partial. Qed.
+Theorem C28_before_fix_is_spec_when_safe : forall dom cls d l,
   enum_order_safe dom cls d = true -> Forall (fun v => In v dom) l -> Forall canon l ->
-  vp_group_impl (REnum cls d) l = vp_group (REnum cls d) l.
-Proof. exact impl_is_spec_when_safe. Qed.
+  vp_group_before_fix (REnum cls d) l = vp_group (REnum cls d) l.
+Proof. exact before_fix_is_spec_when_safe. Qed.
 
 (* plain assignment, clauses (filter, sub; calc / keep / drop / rename of measures) and set operators: every datapoint
    of the result is a datapoint of an operand with its viral value unchanged *)
@@ -104,6 +115,8 @@ Example C28_examples :
   vals (veval false [("VAt_1", ex_rule)] env (XAggr (XVar "DS_1") ["Id_1"])) = Ok [VStr "C"; VStr "D"; VStr "X"] /\
   vals (veval false [("VAt_1", RAgg FMax)] env (XUn (XVar "DS_1"))) = Ok [VStr "X"; VStr "X"; VStr "X"; VStr "X"; VStr "X"] /\
   vrun false (fun _ => true) [] env [("DS_r", XVar "DS_1")] "DS_r" = Err "1-3-3-6" /\
+  vp_group_impl witness_rule [VStr "C"; VStr "B"; VStr "A"] = VStr "D" /\
+  vp_group_before_fix witness_rule [VStr "C"; VStr "B"; VStr "A"] = VStr "E" /\
   enum_order_safe [VStr "A"; VStr "B"; VNull] [VC1 (VStr "A") (VStr "A"); VC1 (VStr "B") (VStr "B")] VNull = true /\
   enum_order_safe [VStr "A"; VStr "B"; VStr "C"; VStr "D"; VStr "E"]
                   [VC2 (VStr "A") (VStr "B") (VStr "C"); VC1 (VStr "C") (VStr "D")] (VStr "E") = false.
@@ -113,9 +126,12 @@ Print Assumptions C28_aggregate_group_perm.
 Print Assumptions C28_group_spec_perm.
 Print Assumptions C28_enumerated_pair_comm.
 Print Assumptions C28_single_is_diagonal_pair.
-Print Assumptions C28_enumerated_fold_order_refuted.
-Print Assumptions C28_enumerated_fold_partial.
-Print Assumptions C28_impl_is_spec_when_safe.
+Print Assumptions C28_engine_fold_is_spec.
+Print Assumptions C28_engine_fold_order_independent.
+Print Assumptions C28_group_value_order_independent.
+Print Assumptions C28_fold_before_fix_order_dependent.
+Print Assumptions C28_fold_before_fix_partial.
+Print Assumptions C28_before_fix_is_spec_when_safe.
 Print Assumptions C28_clauses_and_set_ops_preserve.
 Print Assumptions C28_missing_rule_rejected.
 Print Assumptions C28_missing_rule_rejects_run.
